@@ -187,9 +187,12 @@ fn run_seq(limit: usize, tl: u64, ops: &[Op], sweep: bool, seen: &mut Seen) -> S
 // ---------------------------------------------------------------- handler level
 
 /// uri -> (is file route, path relative to the work directory, MIME index the handler must derive)
-const ROUTES: [(&str, bool, &str, usize); 6] = [
+const ROUTES: [(&str, bool, &str, usize); 8] = [
     ("/single", true, "single.html", 1),
     ("/static/a.txt", false, "d/a.txt", 3),
+    // names that differ only in ASCII case are different files and different cache keys
+    ("/static/A.txt", false, "d/A.txt", 3),
+    ("/static/SUB/e.json", false, "d/SUB/e.json", 12),
     ("/static/b.bin", false, "d/b.bin", 11),
     ("/static/sub/", false, "d/sub/index.html", 1),
     ("/static/c.css", false, "d/c.css", 0),
@@ -199,6 +202,7 @@ const ROUTES: [(&str, bool, &str, usize); 6] = [
 fn serve_dir() -> String {
     let dir = format!("../work/c16_files_{}", std::process::id());
     std::fs::create_dir_all(format!("{}/d/sub", dir)).expect("create work dir for C16");
+    std::fs::create_dir_all(format!("{}/d/SUB", dir)).expect("create work dir for C16");
     dir
 }
 
